@@ -253,5 +253,17 @@ def run(ctx):
                                    case=show, impl=ii[:500], model=mo[:500]), has_input=False)
         else:
             ctx.cov["traces_validated_against_impl"] += 1
+    # replay of the known finding: an ACL document as an independent restXml client writes it (xsi:type as an attribute)
+    known = vlib.known_findings("C13")
+    acl = (b'<AccessControlPolicy xmlns="http://s3.amazonaws.com/doc/2006-03-01/"><Owner><ID>o</ID></Owner><AccessControlList><Grant>'
+           b'<Grantee xmlns:xsi="http://www.w3.org/2001/XMLSchema-instance" xsi:type="CanonicalUser"><ID>o</ID></Grantee>'
+           b'<Permission>FULL_CONTROL</Permission></Grant></AccessControlList></AccessControlPolicy>')
+    out = vlib.run_impl("c13", [dict(op="xml_reser", type="AccessControlPolicy", doc=acl.hex())])[0].get("out", "")
+    ctx.cov["evaluations"] += 1
+    if not out.startswith("ok:") or b"xsi:type=" not in bytes.fromhex(out[3:]):
+        if "acl-grantee-xsi-type" in known:
+            ctx.known("acl-grantee-xsi-type", known["acl-grantee-xsi-type"])
+        else:
+            ctx.violation(dict(stage="decode", kind="an ACL document written by an independent restXml client is not read back", document=acl.decode(), impl=out[:200]))
     ctx.sample(dict(type=vals[0][0], document=docs[0].decode("utf8", "replace")[:400], impl=impl[0][:60]))
     ctx.sample(dict(type=mmeta[0][0], mutant=mmeta[0][3].decode("utf8", "replace")[:300], impl=mimpl[0][:80], model=model_of.get(0, "(not well-formed)")[:80]))
